@@ -69,6 +69,26 @@ def generate():
                 tree = sx.paths(run, assume=[var('a0') > 0] if is4 else ())
             finally:
                 if had_math: mod.math = old_math
+            # numeric self-check: the translated block, evaluated at random numbers, reproduces the class on the real numpy backend
+            mgr.this.state['default'] = sd; mgr.this.state['current'] = sc
+            try:
+                def sampler(rng):
+                    env = {'a0': rng.choice([1.0, 0.5, 2.0])}
+                    for s_ in range(NS):
+                        for hh in range(NH):
+                            for b in range(NB):
+                                nom = rng.uniform(5, 100)
+                                env[f'n{s_}{hh}{b}'] = nom; env[f'u{s_}{hh}{b}'] = nom * rng.uniform(0.6, 1.5); env[f'd{s_}{hh}{b}'] = nom * rng.uniform(0.6, 1.5)
+                        for t in range(NT): env[f'a{s_}{t}'] = rng.choice([rng.uniform(-3, 3), env['a0'], -env['a0'], 0.0, 1.0, -1.0])
+                    return env
+
+                def reference(env):
+                    h = [[[[env[f'{k}{s_}{hh}{b}'] for b in range(NB)] for k in 'dnu'] for hh in range(NH)] for s_ in range(NS)]
+                    it = cls(h, subscribe=False, alpha0=env['a0']) if is4 else cls(h, subscribe=False)
+                    return np.asarray(it(np.asarray([[env[f'a{s_}{t}'] for t in range(NT)] for s_ in range(NS)])))
+                sx.selfcheck(f'{modname}/multi', tree, None, sampler, reference, n=40)
+            finally:
+                mgr.this.state['default'] = (sb, sd[1]); mgr.this.state['current'] = (sb, sc[1])
             digest = hashlib.sha256(inspect.getsource(cls).encode()).hexdigest()[:16]
             sig = '(P : Prim K) ' + ('(a0 : K) ' if is4 else '') + '(' + ' '.join(hist_vars()) + ' : K) (' + ' '.join(alpha_vars(NT)) + ' : K)'
             out.append(f'/-! ## `{modname}.py::{cls.__name__}` (source sha256 {digest}…) -/\n')
